@@ -81,6 +81,8 @@ impl Function {
     }
 
     pub(crate) fn exec(&self, interpreter: &mut Interpreter) -> Result<Variable, ExecError> {
+        #[cfg(feature = "verif")]
+        let _verif_guard = crate::verif::enter_fn(self);
         let body = match &self.body {
             Body::Lang(body) => body,
             Body::Native(body) => return (body)(interpreter),
